@@ -126,6 +126,10 @@ def r12_1_sites(ctx):
     scenarios.append(("byte and method with the same text", [("byte", same), ("method_signature", same), ("byte", same), ("method_signature", same)]))
     scenarios.append(("method then byte with the same text", [("method_signature", same), ("byte", same), ("method_signature", same), ("byte", same), ("byte", '"f()void"'), ("method_signature", '"f()void"')]))
     scenarios.append(("byte and addr with the same template", [("byte", "TMPL_D"), ("addr", "TMPL_D"), ("byte", "TMPL_D"), ("addr", "TMPL_D")]))
+    # every legal final group of a base32 literal, padded and not
+    b32 = ["ME", "ME======", "MFRA", "MFRA====", "MFRGG", "MFRGG===", "MFRGGZA", "MFRGGZA=", "MFRGGZDF", "MFRGGZDFMY", "MFRGGZDFMY======"]
+    scenarios.append(("base32 final groups of 2, 4, 5, 7 and 8 characters", [("byte", f"base32({x})") for x in b32 for _ in range(2)]))
+    scenarios.append(("base32 final groups, single use", [("byte", f"base32({x})") for x in b32]))
     # a signature is hashed exactly as written
     scenarios.append(("method signatures differing in blanks", [("method_signature", '"add(uint64, uint64)uint64"'), ("method_signature", same), ("method_signature", '"add(uint64, uint64)uint64"'), ("method_signature", same), ("method_signature", '" f()void"')]))
     n_rand = 60 if ctx.tier == "quick" else 600
@@ -308,6 +312,42 @@ def r12_2b_named_ints(ctx):
     q.need(n >= 12, f"only {n} EnumInt literals found; the OnComplete and TxnType enumerations have 13")
 
 
+class _IntSub(int):
+    """an int subclass (what IntEnum / IntFlag members are)"""
+
+
+def r12_5_int_operands(ctx):
+    ctx.rule("R12.5", "emitter and reader agree on integer operands: every value the Int constructor accepts and lowers to an `int` pseudo-op is a value the constants pass can read back to the same number (plain ints, the range limits, int subclasses such as enum members, bool, strings)")
+    ic = ctx.model.find_class("Int", "pyteal.ast.int")
+    init = ic.methods["__init__"]
+    ev = ctx.model.find_func("extractIntValue", "pyteal.compiler.constants")
+    ctx.analysed(init.fq, ev.fq)
+    OpS = op_sym(ctx.model)
+    table = named_int_table(ctx)
+    for v in (0, 1, 127, 128, 2**64 - 1, _IntSub(1), _IntSub(0), _IntSub(300), True, False, 2**64, -1, "1", "TMPL_A", 1.0):
+        selfs = Sym("self")
+        try:
+            run_function(init.node, {"self": selfs, "value": v}, lambda e, me: Sym("super", methods={"__init__": lambda: None}) if isinstance(e, ast.Call) and u(e) == "super()" else (_ for _ in ()).throw(Unknown()), init.fq, permissive=True)
+            accepted = "value" in selfs.attrs
+        except Raised:
+            accepted = False
+        construct = f"Int({type(v).__name__} {v!r})"
+        if not accepted:
+            ctx.ok("R12.5", construct, "refused by the constructor", init.where)
+            continue
+        stored = selfs.attrs["value"]
+        op = _const_op(OpS, "int", stored, 0)
+        try:
+            got, _ = run_function(ev.node, {"op": op}, lambda e, me: dict(table) if u(e) == "intEnumValues" else (_ for _ in ()).throw(Unknown()), ev.fq, permissive=True)
+            ok = isinstance(got, int) and not isinstance(got, bool) and got == int(v) if not isinstance(v, bool) else False
+            why = f"the constructor accepts it and the constants pass reads {got!r}"
+        except Raised as r:
+            ok = False
+            why = f"the constructor accepts it (the plain program holds `int {stored}`) but the constants pass refuses it: {r.exc_text[:60]}"
+        ctx.check(ok, "R12.5", construct, why, ev.where, fact={"stored": repr(stored)})
+    ctx.require_min("R12.5", 12)
+
+
 def r12_2_readers(ctx):
     ctx.rule("R12.2", "literal readers agree with the emitters: the constant-loading pseudo-ops handled are exactly int/byte/addr/method; every byte-literal syntax Bytes/Tmpl/Addr/MethodSignature can emit is understood; every EnumInt literal of the package is a named constant of the table; unknown forms raise")
     f = ctx.model.find_func("createConstantBlocks", "pyteal.compiler.constants")
@@ -338,6 +378,7 @@ def r12_2_readers(ctx):
 def run(ctx):
     r12_1_sites(ctx)
     r12_2_readers(ctx)
+    r12_5_int_operands(ctx)
     r12_4_index_range(ctx)
     from rules import c04 as _c04
 
